@@ -181,6 +181,8 @@ pub struct Agg {
     pub viol_counts: BTreeMap<String, u64>,
     pub harness_panics: u64,
     pub harness_panic_example: Option<String>,
+    /// per base scenario: combined trace hash of its executions (kept for small batches only)
+    pub index_hashes: BTreeMap<u64, u64>,
 }
 
 impl Agg {
@@ -197,6 +199,7 @@ impl Agg {
         self.hash_sum = self.hash_sum.wrapping_add(o.hash_sum);
         self.samples.extend(o.samples);
         self.violations.extend(o.violations);
+        self.index_hashes.extend(o.index_hashes);
         self.harness_panics += o.harness_panics;
         if self.harness_panic_example.is_none() {
             self.harness_panic_example = o.harness_panic_example;
@@ -270,7 +273,12 @@ pub fn run_family<F: Family>(f: &F, cfg: &RunCfg) -> Agg {
                         }
                         let mut h = idx.wrapping_mul(0x9E3779B97F4A7C15) ^ sub.wrapping_mul(0xC2B2AE3D27D4EB4F);
                         h ^= out.trace_hash;
-                        agg.hash_sum = agg.hash_sum.wrapping_add(crate::rng::splitmix(&mut h));
+                        let hv = crate::rng::splitmix(&mut h);
+                        agg.hash_sum = agg.hash_sum.wrapping_add(hv);
+                        if cfg.count <= 64 {
+                            let e = agg.index_hashes.entry(idx).or_insert(0);
+                            *e = e.wrapping_add(hv);
+                        }
                         if idx < 4 && sub < 2 {
                             agg.samples.push((
                                 idx * 1000 + sub,
